@@ -255,7 +255,11 @@ def global_state(p: Program) -> List[Tuple[str, str, str, str]]:
                     cls_level.setdefault(name, (f"{c.name}", v, getattr(v, "lineno", 0)))
                 if isinstance(v, ast.Call) and _dotted(v.func).split(".")[-1] not in (
                         "compile", "frozenset", "tuple", "Path", "str", "int", "TypeVar", "namedtuple", "auto", "field",
-                        "Lock", "RLock", "getLogger", "property", "staticmethod", "classmethod") and not immutable_instance(p, v):
+                        "Lock", "RLock", "getLogger", "property", "staticmethod", "classmethod",
+                        # builtins and str methods whose result is an immutable value
+                        "len", "float", "bool", "bytes", "min", "max", "sum", "abs", "round", "ord", "chr", "repr", "hash", "range",
+                        "join", "format", "lower", "upper", "strip", "lstrip", "rstrip", "replace", "title", "capitalize",
+                        "encode", "escape") and not immutable_instance(p, v):
                     # an object created once for the class: shared by every instance and every operation of the process
                     # (threading.local() / ContextVar: state that additionally depends on the calling thread)
                     items.append(("class-level object", f"{c.name}.{name}", f"{m.rel()}:{getattr(v, 'lineno', 0)}",
